@@ -1000,7 +1000,8 @@ fn step_inner(s: &mut Sess, toks: &[&str]) -> Option<String> {
                 let t = parse_mgr(mgr)?;
                 TableMgr { kind: if t.is_empty() { 0 } else { 2 }, table: t }
             };
-            let mem = SimpleGseMemory::new(n, sz, 0, 0);
+            // the crate ignores `max_delay` and `max_pdu_frag`: any value must behave like 0
+            let mem = SimpleGseMemory::new(n, sz, (n * 7 + sz) % 5, (n + sz) % 4);
             s.maxpdu = sz;
             s.dec = Some(Decapsulator::new(mem, HCrc { xor: 0 }, m));
             Some(format!("ok | {}", s.fmt_dec()))
@@ -1015,7 +1016,8 @@ fn step_inner(s: &mut Sess, toks: &[&str]) -> Option<String> {
                 let t = parse_mgr(mgr)?;
                 TableMgr { kind: if t.is_empty() { 0 } else { 2 }, table: t }
             };
-            let mem = SimpleGseMemory::new(n, sz, 0, 0);
+            // the crate ignores `max_delay` and `max_pdu_frag`: any value must behave like 0
+            let mem = SimpleGseMemory::new(n, sz, (n * 7 + sz) % 5, (n + sz) % 4);
             s.maxpdu = sz;
             s.dec = Some(Decapsulator::new(mem, HCrc { xor: k }, m));
             Some(format!("ok | {}", s.fmt_dec()))
